@@ -53,6 +53,7 @@ class _Path:
         self.max_decisions = opts.get("max_decisions", 4000)
         self.extra = []          # lazily-added axioms (z3 terms), only used for obligations
         self.gave_up = set()
+        self.asserts = []
         self.known = {}          # ast id -> (term, bool): conditions already decided on this path
 
     # -- solver helpers
@@ -65,6 +66,7 @@ class _Path:
 
     def add(self, t):
         self.s.add(t)
+        self.asserts.append(t)
 
     def get_model(self):
         if self.model is None:
@@ -154,11 +156,22 @@ def _branch(p, t):
             p.unknown_branches += 1
             if r2 == z3.sat:
                 p.model = p.s.model()
+                p.pending.append(p.decisions + [True])     # t itself could not be refuted
                 p.add(z3.Not(t))
                 p.decisions.append(False)
                 return False
-            p.poisoned = True
-            raise PathAbort("branch undecidable for the solver: %s" % str(t)[:200])
+            if r2 == z3.unsat:
+                p.add(t)
+                p.decisions.append(True)
+                p.model = None
+                return True
+            # neither polarity decided: explore both (a possibly infeasible path is harmless,
+            # its obligations are then vacuously unsat or inconclusive)
+            p.pending.append(p.decisions + [False])
+            p.add(t)
+            p.decisions.append(True)
+            p.model = None
+            return True
     other = z3.Not(t) if take else t
     r = p.check(other)
     if r == z3.sat:
@@ -411,6 +424,11 @@ class Ctx:
             if z3.is_false(v):
                 self.obligations.append((name, "sat", self._model_values(p.model, detail)))
                 return False
+        # local pre-check: the obligation may already follow from the path constraints that
+        # speak only about its own variables (sound: a subset of the path condition)
+        if len(p.asserts) > 12 and _local_unsat(p, t):
+            self.obligations.append((name, "unsat", None))
+            return True
         p.s.push()
         try:
             p.s.add(z3.Not(t))
@@ -513,6 +531,51 @@ class Ctx:
         for k, t in self.path.inputs.items():
             vals[k] = _pyval(m.eval(t, model_completion=True))
         return {"inputs": vals, "detail": detail}
+
+
+_VARS = {}
+
+
+def _vars_of(t):
+    k = t.get_id()
+    r = _VARS.get(k)
+    if r is not None:
+        return r[1]
+    out = set()
+    seen = set()
+    stack = [t]
+    while stack:
+        e = stack.pop()
+        i = e.get_id()
+        if i in seen:
+            continue
+        seen.add(i)
+        if z3.is_const(e) and e.decl().kind() == z3.Z3_OP_UNINTERPRETED:
+            out.add(e.decl().name())
+        else:
+            stack.extend(e.children())
+    if len(_VARS) > 20000:
+        _VARS.clear()
+    _VARS[k] = (t, out)
+    return out
+
+
+def _local_unsat(p, t):
+    vs = _vars_of(t)
+    if not vs:
+        return False
+    sub = [a for a in p.asserts if _vars_of(a) <= vs]
+    if not sub:
+        return False
+    s2 = z3.Solver()
+    s2.set("timeout", 1500)
+    s2.add(*sub)
+    s2.add(z3.Not(t))
+    t0 = time.perf_counter()
+    r = s2.check()
+    p.tq += time.perf_counter() - t0
+    p.nq += 1
+    return r == z3.unsat
 
 
 def _falsify_by_sampling(p, ctx, tries=24):
